@@ -383,9 +383,10 @@ def c15_family():
                 out.append(dict(mod="gen::c15g", name=f"basis_nosimd_{op}_{size}_{trunc}_{delta}_p{p}", unwind=128, macro="h",
                                 body=f"crate::c15::prim_basis::<NoSimd>({isf}, {size}, {trunc}, {delta}, {p})",
                                 kind="basis", engine="nosimd", op=op, size=size, trunc=trunc, delta=delta, p=p))
-            out.append(dict(mod="gen::c15g", name=f"additive_nosimd_{op}_{size}_{trunc}_{delta}", unwind=128, macro="h",
-                            body=f"crate::c15::prim_additive::<NoSimd>({isf}, {size}, {trunc}, {delta})",
-                            kind="additive", engine="nosimd", op=op, size=size, trunc=trunc, delta=delta))
+            if size <= 4:  # size-8 additivity on fully symbolic blocks: out of memory at 10 GB (basis form covers size 8)
+              out.append(dict(mod="gen::c15g", name=f"additive_nosimd_{op}_{size}_{trunc}_{delta}", unwind=128, macro="h",
+                              body=f"crate::c15::prim_additive::<NoSimd>({isf}, {size}, {trunc}, {delta})",
+                              kind="additive", engine="nosimd", op=op, size=size, trunc=trunc, delta=delta))
             # Naive::fft/ifft read the 65536-entry exp/log statics: neither a full-block nor a
             # one-lane miter nor a concrete known answer fits CBMC (out of memory / > 10 min): not run.
             # Neon on emulated intrinsics: byte loops, size <= 4.
